@@ -33,6 +33,8 @@ impl ResolveRegistry {
     {
         let (effect, resolve) = effect.serialize();
 
+        #[cfg(crux_verif)]
+        let _registry_scope = crate::verif::LockScope::new("registry");
         let id = self
             .0
             .lock()
@@ -53,6 +55,8 @@ impl ResolveRegistry {
         id: EffectId,
         body: &mut dyn erased_serde::Deserializer,
     ) -> Result<(), BridgeError> {
+        #[cfg(crux_verif)]
+        let _registry_scope = crate::verif::LockScope::new("registry");
         let mut registry_lock = self.0.lock().expect("Registry Mutex poisoned");
 
         let entry = registry_lock.get_mut(id.0 as usize);
@@ -69,5 +73,22 @@ impl ResolveRegistry {
         }
 
         resolved
+    }
+}
+
+#[cfg(crux_verif)]
+impl ResolveRegistry {
+    /// Number of registry entries by kind: (never, once, many).
+    pub fn verif_kinds(&self) -> (usize, usize, usize) {
+        let lock = self.0.lock().expect("Registry Mutex poisoned");
+        let mut kinds = (0, 0, 0);
+        for (_, entry) in lock.iter() {
+            match entry {
+                ResolveSerialized::Never => kinds.0 += 1,
+                ResolveSerialized::Once(_) => kinds.1 += 1,
+                ResolveSerialized::Many(_) => kinds.2 += 1,
+            }
+        }
+        kinds
     }
 }
